@@ -3,36 +3,36 @@
    Reference semantics: Proofs/ParseSpec.v (grammar `sign? digit+`, Horner value `denote`, `enc`).
    All theorems hold for every digit width w that is a positive multiple of 8 (the code computes
    BITS / log2(radix) digits per word and casts the radix to the digit type), every digit count
-   n >= 1, both build modes (dbg), all byte strings.  Facts about functions modelled in other files
-   (overflowing_add, bit, trailing_zeros, wrapping_neg, is_negative) are explicit premises
-   (Proofs/ParseDeps.v).  Results: POk v / PErr kind / PPanic / PFuel (model out of fuel = the source
+   n >= 1, both build modes (dbg), all byte strings.  The facts about functions modelled in other files
+   (overflowing_add, bit, trailing_zeros, wrapping_neg, is_negative) that the development took as
+   premises (Proofs/ParseDeps.v) are discharged by the owners' theorems (Proofs/DischargeParse.v):
+   no theorem below has a premise of that kind.  Results: POk v / PErr kind / PPanic / PFuel (model out of fuel = the source
    loop would not terminate; excluded by the *_panic theorems).
    Error kinds: Empty = 0, InvalidDigit = 1, PosOverflow = 2, NegOverflow = 3. *)
 From Bnum Require Import Base Prim.
 From Bnum.Model Require Import Digit Core Shift AddSub Bits Parse.
 From Bnum.Proofs Require Import ParseSpec ParseLoops ParseDeps Parse.
+From Bnum.Proofs Require Import DischargeParse.
 
 (* ---- well-formed strings: Ok(denoted value) iff representable, else Pos/NegOverflow by sign;
         any number of leading zeros (the grammar does not bound them) ---- *)
 Theorem C10_U_from_str_radix_ok :
-  U_overflowing_add_spec ->
   forall dbg w n s r,
   0 < w -> w mod 8 = 0 -> (0 < n)%nat -> 2 <= r <= 36 -> grammarb false r s = true ->
   U_from_str_radix dbg w n s r =
     let v := denote false r s in
     if v <? Mod w n then POk (enc w n v) else PErr PosOverflow.
-Proof. exact U_from_str_radix_ok. Qed.
+Proof. exact (U_from_str_radix_ok DischargeParse.U_overflowing_add_spec_holds). Qed.
 Print Assumptions C10_U_from_str_radix_ok.
 
 Theorem C10_I_from_str_radix_ok :
-  U_overflowing_add_spec -> bit_spec -> trailing_zeros_spec -> I_wrapping_neg_spec -> is_negative_spec ->
   forall dbg w n s r,
   0 < w -> w mod 8 = 0 -> (0 < n)%nat -> 2 <= r <= 36 -> grammarb true r s = true ->
   I_from_str_radix dbg w n s r =
     let v := denote true r s in
     if (- (Mod w n / 2) <=? v) && (v <? Mod w n / 2) then POk (enc w n v)
     else PErr (if is_neg true s then NegOverflow else PosOverflow).
-Proof. exact I_from_str_radix_ok. Qed.
+Proof. exact (I_from_str_radix_ok DischargeParse.U_overflowing_add_spec_holds DischargeParse.bit_spec_holds DischargeParse.trailing_zeros_spec_holds DischargeParse.I_wrapping_neg_spec_holds DischargeParse.is_negative_spec_holds). Qed.
 Print Assumptions C10_I_from_str_radix_ok.
 
 (* ---- empty string, lone sign ---- *)
@@ -54,44 +54,40 @@ Print Assumptions C10_I_lone_sign.
         non-ASCII, a second sign, '-' for unsigned) is never accepted, and is rejected with
         InvalidDigit whenever its digit positions cannot overflow the type ---- *)
 Theorem C10_U_from_str_radix_reject :
-  U_overflowing_add_spec ->
   forall dbg w n s r,
   0 < w -> w mod 8 = 0 -> (0 < n)%nat -> 2 <= r <= 36 -> s <> [] -> grammarb false r s = false ->
   exists k, U_from_str_radix dbg w n s r = PErr k /\ (k = InvalidDigit \/ k = PosOverflow) /\
             (r ^ Z.of_nat (length (body false s)) <= Mod w n -> k = InvalidDigit).
-Proof. exact U_from_str_radix_reject. Qed.
+Proof. exact (U_from_str_radix_reject DischargeParse.U_overflowing_add_spec_holds). Qed.
 Print Assumptions C10_U_from_str_radix_reject.
 
 Theorem C10_I_from_str_radix_reject :
-  U_overflowing_add_spec ->
   forall dbg w n s r,
   0 < w -> w mod 8 = 0 -> (0 < n)%nat -> 2 <= r <= 36 -> s <> [] -> grammarb true r s = false ->
   exists k, I_from_str_radix dbg w n s r = PErr k /\
             (k = InvalidDigit \/ k = PosOverflow \/ k = NegOverflow) /\
             (r ^ Z.of_nat (length (body true s)) <= Mod w n -> k = InvalidDigit).
-Proof. exact I_from_str_radix_reject. Qed.
+Proof. exact (I_from_str_radix_reject DischargeParse.U_overflowing_add_spec_holds). Qed.
 Print Assumptions C10_I_from_str_radix_reject.
 
 (* ---- digit slices: Some(v) iff every digit is below the radix and the Horner value fits.
         Radix 256 goes through the local minimal model of from_be_slice / from_le_slice
         (Model/Parse.v; the faithful model of src/buint/endian.rs is property C15's). ---- *)
 Theorem C10_from_radix_be :
-  U_overflowing_add_spec ->
   forall dbg w n ds r,
   0 < w -> w mod 8 = 0 -> (0 < n)%nat -> 2 <= r <= 256 -> bytes ds ->
   U_from_radix_be dbg w n ds r =
     POk (if digits_below r ds && (horner r ds <? Mod w n) then Some (digits_of w n (horner r ds)) else None).
-Proof. exact U_from_radix_be_full. Qed.
+Proof. exact (U_from_radix_be_full DischargeParse.U_overflowing_add_spec_holds). Qed.
 Print Assumptions C10_from_radix_be.
 
 Theorem C10_from_radix_le :
-  U_overflowing_add_spec ->
   forall dbg w n ds r,
   0 < w -> w mod 8 = 0 -> (0 < n)%nat -> 2 <= r <= 256 -> bytes ds ->
   U_from_radix_le dbg w n ds r =
     POk (if digits_below r (rev ds) && (horner r (rev ds) <? Mod w n)
          then Some (digits_of w n (horner r (rev ds))) else None).
-Proof. exact U_from_radix_le_full. Qed.
+Proof. exact (U_from_radix_le_full DischargeParse.U_overflowing_add_spec_holds). Qed.
 Print Assumptions C10_from_radix_le.
 
 (* BInt::from_radix_be/le are the unsigned functions followed by from_bits (identity on the digits) *)
@@ -110,39 +106,35 @@ Proof. exact I_parse_bytes_projection. Qed.
 Print Assumptions C10_I_parse_bytes_projection.
 
 Theorem C10_U_parse_bytes_ok :
-  U_overflowing_add_spec ->
   forall dbg w n s r,
   0 < w -> w mod 8 = 0 -> (0 < n)%nat -> 2 <= r <= 36 -> grammarb false r s = true ->
   U_parse_bytes dbg w n s r =
     let v := denote false r s in POk (if v <? Mod w n then Some (enc w n v) else None).
-Proof. exact U_parse_bytes_ok. Qed.
+Proof. exact (U_parse_bytes_ok DischargeParse.U_overflowing_add_spec_holds). Qed.
 Print Assumptions C10_U_parse_bytes_ok.
 
 Theorem C10_U_parse_bytes_reject :
-  U_overflowing_add_spec ->
   forall dbg w n s r,
   0 < w -> w mod 8 = 0 -> (0 < n)%nat -> 2 <= r <= 36 -> grammarb false r s = false ->
   U_parse_bytes dbg w n s r = POk None.
-Proof. exact U_parse_bytes_reject. Qed.
+Proof. exact (U_parse_bytes_reject DischargeParse.U_overflowing_add_spec_holds). Qed.
 Print Assumptions C10_U_parse_bytes_reject.
 
 Theorem C10_I_parse_bytes_ok :
-  U_overflowing_add_spec -> bit_spec -> trailing_zeros_spec -> I_wrapping_neg_spec -> is_negative_spec ->
   forall dbg w n s r,
   0 < w -> w mod 8 = 0 -> (0 < n)%nat -> 2 <= r <= 36 -> grammarb true r s = true ->
   I_parse_bytes dbg w n s r =
     pok (let v := denote true r s in
          if (- (Mod w n / 2) <=? v) && (v <? Mod w n / 2) then POk (enc w n v)
          else PErr (if is_neg true s then NegOverflow else PosOverflow)).
-Proof. exact I_parse_bytes_ok. Qed.
+Proof. exact (I_parse_bytes_ok DischargeParse.U_overflowing_add_spec_holds DischargeParse.bit_spec_holds DischargeParse.trailing_zeros_spec_holds DischargeParse.I_wrapping_neg_spec_holds DischargeParse.is_negative_spec_holds). Qed.
 Print Assumptions C10_I_parse_bytes_ok.
 
 Theorem C10_I_parse_bytes_reject :
-  U_overflowing_add_spec ->
   forall dbg w n s r,
   0 < w -> w mod 8 = 0 -> (0 < n)%nat -> 2 <= r <= 36 -> grammarb true r s = false ->
   I_parse_bytes dbg w n s r = POk None.
-Proof. exact I_parse_bytes_reject. Qed.
+Proof. exact (I_parse_bytes_reject DischargeParse.U_overflowing_add_spec_holds). Qed.
 Print Assumptions C10_I_parse_bytes_reject.
 
 (* ---- FromStr = radix 10 ---- *)
@@ -155,31 +147,27 @@ Print Assumptions C10_I_from_str.
 
 (* ---- panics exactly for an out-of-range radix (and the loops terminate) ---- *)
 Theorem C10_U_from_str_radix_panic :
-  U_overflowing_add_spec ->
   forall dbg w n s r, 0 < w -> w mod 8 = 0 -> (0 < n)%nat ->
   (U_from_str_radix dbg w n s r = PPanic <-> ~ (2 <= r <= 36)) /\ U_from_str_radix dbg w n s r <> PFuel.
-Proof. exact U_from_str_radix_panic. Qed.
+Proof. exact (U_from_str_radix_panic DischargeParse.U_overflowing_add_spec_holds). Qed.
 Print Assumptions C10_U_from_str_radix_panic.
 
 Theorem C10_I_from_str_radix_panic :
-  U_overflowing_add_spec -> bit_spec -> trailing_zeros_spec -> I_wrapping_neg_spec -> is_negative_spec ->
   forall dbg w n s r, 0 < w -> w mod 8 = 0 -> (0 < n)%nat ->
   (I_from_str_radix dbg w n s r = PPanic <-> ~ (2 <= r <= 36)) /\ I_from_str_radix dbg w n s r <> PFuel.
-Proof. exact I_from_str_radix_panic. Qed.
+Proof. exact (I_from_str_radix_panic DischargeParse.U_overflowing_add_spec_holds DischargeParse.bit_spec_holds DischargeParse.trailing_zeros_spec_holds DischargeParse.I_wrapping_neg_spec_holds DischargeParse.is_negative_spec_holds). Qed.
 Print Assumptions C10_I_from_str_radix_panic.
 
 Theorem C10_U_parse_bytes_panic :
-  U_overflowing_add_spec ->
   forall dbg w n s r, 0 < w -> w mod 8 = 0 -> (0 < n)%nat ->
   U_parse_bytes dbg w n s r = PPanic -> ~ (2 <= r <= 36).
-Proof. exact U_parse_bytes_panic. Qed.
+Proof. exact (U_parse_bytes_panic DischargeParse.U_overflowing_add_spec_holds). Qed.
 Print Assumptions C10_U_parse_bytes_panic.
 
 Theorem C10_I_parse_bytes_panic :
-  U_overflowing_add_spec -> bit_spec -> trailing_zeros_spec -> I_wrapping_neg_spec -> is_negative_spec ->
   forall dbg w n s r, 0 < w -> w mod 8 = 0 -> (0 < n)%nat ->
   I_parse_bytes dbg w n s r = PPanic -> ~ (2 <= r <= 36).
-Proof. exact I_parse_bytes_panic. Qed.
+Proof. exact (I_parse_bytes_panic DischargeParse.U_overflowing_add_spec_holds DischargeParse.bit_spec_holds DischargeParse.trailing_zeros_spec_holds DischargeParse.I_wrapping_neg_spec_holds DischargeParse.is_negative_spec_holds). Qed.
 Print Assumptions C10_I_parse_bytes_panic.
 
 (* parse_str_radix = from_str_radix with Err turned into a panic *)
@@ -193,17 +181,15 @@ Proof. exact I_parse_str_radix_def. Qed.
 Print Assumptions C10_I_parse_str_radix.
 
 Theorem C10_from_radix_be_panic :
-  U_overflowing_add_spec ->
   forall dbg w n ds r, 0 < w -> w mod 8 = 0 -> (0 < n)%nat -> bytes ds ->
   (U_from_radix_be dbg w n ds r = PPanic <-> ~ (2 <= r <= 256)).
-Proof. exact U_from_radix_be_panic. Qed.
+Proof. exact (U_from_radix_be_panic DischargeParse.U_overflowing_add_spec_holds). Qed.
 Print Assumptions C10_from_radix_be_panic.
 
 Theorem C10_from_radix_le_panic :
-  U_overflowing_add_spec ->
   forall dbg w n ds r, 0 < w -> w mod 8 = 0 -> (0 < n)%nat -> bytes ds ->
   (U_from_radix_le dbg w n ds r = PPanic <-> ~ (2 <= r <= 256)).
-Proof. exact U_from_radix_le_panic. Qed.
+Proof. exact (U_from_radix_le_panic DischargeParse.U_overflowing_add_spec_holds). Qed.
 Print Assumptions C10_from_radix_le_panic.
 
 (* ---- the hypotheses are satisfiable; concrete instances ---- *)
